@@ -77,9 +77,17 @@ def pagebuilt_suite(tier, rnd, d):
         chosen = rnd.sample(deep, 5) + rnd.sample(flat, 3)
     else:
         chosen = shapes
+    # a root with many children over two more levels (the depth budget of a walk is per LEVEL, not per page visited): 33
+    # children, each an interior page with two one-entry leaves -- a shape SQLite would need tens of thousands of rows for
+    wide = {"k": "I", "ps": 1024, "kids": [{"k": "I", "kids": [{"k": "L", "n": 1}, {"k": "L", "n": 1}]} for _ in range(33)]}
+    chosen = list(chosen) + [wide]
     out = []
     n = 0
     for sh in chosen:
+        if sh is wide:
+            variants_fixed = [(False, False, "distinct", False), (True, False, "pairs", False)]
+        else:
+            variants_fixed = None
         variants = []
         for ovf in (False, True):
             variants.append((False, rnd.random() < 0.5, "distinct", ovf))
@@ -87,8 +95,10 @@ def pagebuilt_suite(tier, rnd, d):
                 variants.append((True, False, pat, ovf))
         if tier == "quick":
             variants = rnd.sample(variants, 3)
+        if variants_fixed:
+            variants = variants_fixed
         for is_index, stale, pat, ovf in variants:
-            data, expect = pagebuilder.build(sh, is_index, stale=stale, pattern=pat, ovf=ovf, page_size=512)
+            data, expect = pagebuilder.build(sh, is_index, stale=stale, pattern=pat, ovf=ovf, page_size=sh.get("ps", 512))
             name = "P%d" % n
             n += 1
             path = os.path.join(d, name + ".db")
